@@ -754,7 +754,7 @@ class TimeArray(TimeBase):
             # time - timedelta -> time
             jd1 = self.jd1 - other.jd1
             jd2 = self.jd2 - other.jd2
-            return self.from_jds(self.jd1, jd2, self.fmt)
+            return self.from_jds(jd1, jd2, self.fmt)
 
         elif isinstance(other, TimeArray):
             # time - time -> timedelta
